@@ -932,7 +932,7 @@ def _lit_pi_180(tu):
 # --------------------------------------------------------------------------
 
 QUICK_KERNELS = [("sphere", "Iq"), ("cylinder", "Iq"), ("cylinder", "Iqxy"), ("parallelepiped", "Iqxy"),
-                 ("lamellar", "Iq"), ("hardsphere", "Iq"), ("fractal", "Iqxy"), ("sphere", "Imagnetic"),
+                 ("lamellar", "Iq"), ("hardsphere", "Iq"), ("fractal", "Iqxy"), ("vesicle", "Iq"), ("sphere", "Imagnetic"),
                  ("cylinder", "Imagnetic")]
 
 
